@@ -189,6 +189,10 @@ struct Tr<'a> {
     s: t6w::SState,
     /// READ mode: the reader is an owned parameter (`mut reader: R`), callees get `&mut reader`
     reader_owned: bool,
+    /// READ mode (t6r.rs): the function records `cell.store(v)` effects; name of the list variable
+    rstores: Option<String>,
+    /// READ mode (t6r.rs): the function calls external layer constructors (parameter `ext`)
+    uses_ext: bool,
 }
 
 fn path_last(p: &Path) -> String {
@@ -240,6 +244,8 @@ fn untyped_int_lit(e: &Expr) -> bool {
     match e {
         Expr::Lit(ExprLit { lit: Lit::Int(i), .. }) => i.suffix().is_empty(),
         Expr::Paren(p) => untyped_int_lit(&p.expr),
+        // `4 + 22 + 2 + 2`: a constant expression of untyped literals takes its type from its first typed use
+        Expr::Binary(b) if matches!(b.op, BinOp::Add(_) | BinOp::Sub(_) | BinOp::Mul(_)) => untyped_int_lit(&b.left) && untyped_int_lit(&b.right),
         _ => false,
     }
 }
@@ -489,6 +495,8 @@ impl<'a> Tr<'a> {
             skip_tuple: false,
             s: t6w::SState::default(),
             reader_owned: false,
+            rstores: None,
+            uses_ext: false,
         }
     }
 
@@ -521,6 +529,9 @@ impl<'a> Tr<'a> {
 
     /// Light type synthesis: the Lean type of a Rust expression when it is evident, else `None`.
     fn type_of(&self, e: &Expr) -> Option<String> {
+        if let Some(t) = self.t6r_type_of(e) {
+            return Some(t);
+        }
         if self.mode == Mode::S {
             if let Some(t) = self.s_type_of(e) {
                 return Some(t);
@@ -721,6 +732,10 @@ impl<'a> Tr<'a> {
                     }
                     "HashMap" if args.len() == 2 => Ok(format!("(Rs.HashMap {} {})", self.ty(args[0])?, self.ty(args[1])?)),
                     "Arc" if args.len() == 1 => self.ty(args[0]),
+                    "Take" => Ok("Rs.Take".into()),
+                    "InvalidPassword" => Ok("Rs.InvalidPassword".into()),
+                    "ZipCryptoReaderValid" if self.reg.enums.contains_key("ZipCryptoValidator") => Ok("(Rs.ZcValid Gen.ZipCryptoValidator)".into()),
+                    "AesReaderValid" if self.reg.enums.contains_key("AesMode") => Ok("(Rs.AesValid Gen.AesMode)".into()),
                     "String" | "str" => Ok("Bytes".into()),
                     n if self.reg.enums.contains_key(n) || self.reg.structs.contains(n) => Ok(format!("Gen.{n}")),
                     n => Err(format!("unsupported type {n}")),
@@ -851,6 +866,9 @@ impl<'a> Tr<'a> {
                     if name == "None" {
                         return Ok("none".into());
                     }
+                    if name == "InvalidPassword" {
+                        return Ok("Rs.InvalidPassword.mk".into());
+                    }
                     return Ok(name);
                 }
                 // qualified path: module::CONST, Enum::Variant, Self::Variant
@@ -912,6 +930,7 @@ impl<'a> Tr<'a> {
                 self.tail = tail;
                 self.if_expr(i)
             }
+            Expr::Match(m) if self.t5() && t6r::match_escapes(self.reg, m) => self.t6r_match_elem(m, exp),
             Expr::Match(m) => {
                 self.expect = exp;
                 self.tail = tail;
@@ -927,6 +946,7 @@ impl<'a> Tr<'a> {
                 self.expect = exp;
                 self.try_expr(&t.expr)
             }
+            Expr::Struct(s) if self.t6r_is_variant_struct(s) => self.t6r_variant_struct(s),
             Expr::Struct(s) => {
                 let name = path_last(&s.path);
                 let name = if name == "Self" { self.self_ty.clone().unwrap_or_default() } else { name };
@@ -1825,6 +1845,9 @@ impl<'a> Tr<'a> {
             Expr::MethodCall(m) => {
                 let name = m.method.to_string();
                 let recv_id = path_ident(&m.receiver);
+                if let Some(r) = self.t6r_ext_try(m)? {
+                    return Ok(r);
+                }
                 // READ mode: reader.read_uNN::<LittleEndian>()? / read_exact(&mut buf)? / seek(..)? / stream_position()?
                 if let Some((act, ty, assign)) = self.reader_op(m)? {
                     return Ok(match assign {
@@ -2178,6 +2201,12 @@ impl<'a> Tr<'a> {
             args.push(self.expr(a)?);
         }
         let a = if args.is_empty() { String::new() } else { format!(" {}", args.join(" ")) };
+        let lean = if t6r::is_ext_fn(&lean) {
+            self.uses_ext = true;
+            format!("{lean} ext")
+        } else {
+            lean
+        };
         Ok(Some((format!("{lean}{a}"), fi.ret.clone())))
     }
 
@@ -2531,6 +2560,8 @@ impl<'a> Tr<'a> {
                     self.emit(format!("return Rs.Step.ret {v}"));
                 } else if let (Mode::P | Mode::S, Some(p)) = (&self.mode, &self.pstate) {
                     self.emit(format!("return ({v}, {p})"));
+                } else if let (Mode::R, Some(st)) = (&self.mode, &self.rstores) {
+                    self.emit(format!("return ({v}, {st})"));
                 } else {
                     self.emit(format!("return {v}"));
                 }
@@ -2576,7 +2607,10 @@ impl<'a> Tr<'a> {
             Expr::While(w) => self.while_loop(w),
             Expr::If(i) if i.else_branch.is_none() || true => {
                 // statement-level if: branches are do-sequences (mutation and early return propagate)
-                if let Expr::Let(_) = &*i.cond {
+                if let Expr::Let(l) = &*i.cond {
+                    if self.t5() {
+                        return self.t6r_if_let(i, l);
+                    }
                     return Err("if let".into());
                 }
                 let c = self.expr(&i.cond)?;
@@ -3101,9 +3135,10 @@ fn sig_info(tr: &Tr, sig: &Signature, impl_generics: Option<&Generics>) -> R<(Fn
     let mut read = false;
     let mut n_generics = 0;
     // a type parameter of the enclosing `impl<R: Read + Seek> …` counts when a parameter is `&mut R`
-    let mut own: Vec<&GenericParam> = sig.generics.params.iter().collect();
+    // lifetime parameters carry no meaning here
+    let mut own: Vec<&GenericParam> = sig.generics.params.iter().filter(|g| !matches!(g, GenericParam::Lifetime(_))).collect();
     if let Some(ig) = impl_generics {
-        if sig.generics.params.is_empty() && ig.where_clause.is_none() {
+        if own.is_empty() && ig.where_clause.is_none() {
             for g in &ig.params {
                 if let GenericParam::Type(tp) = g {
                     let used = sig.inputs.iter().any(|a| matches!(a, FnArg::Typed(t) if matches!(&*t.ty, Type::Reference(r) if r.mutability.is_some() && matches!(&*r.elem, Type::Path(p) if p.path.is_ident(&tp.ident)))))
@@ -3178,6 +3213,17 @@ fn sig_info(tr: &Tr, sig: &Signature, impl_generics: Option<&Generics>) -> R<(Fn
     if tparam.is_some() && writer_name.is_none() {
         return Err("generic function without a `&mut T` writer parameter".into());
     }
+    // `reader: &mut (impl Read [+ Seek])`
+    let mut impl_reader = false;
+    if tparam.is_none() {
+        if let Some((idx, name, sk)) = t6r::impl_reader(sig) {
+            writer_idx = Some(idx);
+            writer_name = Some(name);
+            read = true;
+            seek = sk;
+            impl_reader = true;
+        }
+    }
     // `ZipResult<R>` → W mode
     let zr: Option<&Type> = match &sig.output {
         ReturnType::Type(_, t) => match &**t {
@@ -3193,7 +3239,11 @@ fn sig_info(tr: &Tr, sig: &Signature, impl_generics: Option<&Generics>) -> R<(Fn
         _ => None,
     };
     // `x: &mut Struct` (a translated structure) in a plain ZipResult function → P mode
-    if zr.is_some() && tparam.is_none() {
+    if tparam.is_none() && !impl_reader && t6r::has_take_param(sig) {
+        // a `Take` over the device: the function does I/O on it through the layers it builds
+        read = true;
+    }
+    if zr.is_some() && tparam.is_none() && !impl_reader {
         let mut found: Option<(usize, String)> = None;
         let mut k = 0;
         for a in &sig.inputs {
@@ -3302,10 +3352,18 @@ fn translate_fn(reg: &Registry, failed: &HashSet<String>, self_ty: Option<&str>,
             tr.emit(format!("let mut {p} := {p}"));
             tr.mut_vars.insert(p);
         }
+        if fi.mode == Mode::R && t6r::has_store(block) {
+            tr.rstores = Some("stores_".into());
+            tr.emit("let mut stores_ : Rs.Stores := []".into());
+            tr.mut_vars.insert("stores_".into());
+            tr.vars.insert("stores_".into(), "Rs.Stores".into());
+        }
         let v = tr.block_value(block)?;
         tr.hint = None;
         if let (Mode::P, Some(p)) = (&fi.mode, tr.pstate.clone()) {
             tr.emit(format!("pure ({v}, {p})"));
+        } else if let (Mode::R, Some(st)) = (&fi.mode, tr.rstores.clone()) {
+            tr.emit(format!("pure ({v}, {st})"));
         } else {
             tr.emit(format!("pure {v}"));
         }
@@ -3316,7 +3374,15 @@ fn translate_fn(reg: &Registry, failed: &HashSet<String>, self_ty: Option<&str>,
             s.push('\n');
         }
         let ps = if params.is_empty() { String::new() } else { format!(" {}", params.join(" ")) };
-        if fi.mode == Mode::R {
+        let ps = if tr.uses_ext {
+            t6r::mark_ext_fn(lean_name);
+            format!(" (ext : Rs.ReadExt Gen.ZipCryptoValidator Gen.AesMode){ps}")
+        } else {
+            ps
+        };
+        if fi.mode == Mode::R && tr.rstores.is_some() {
+            writeln!(s, "def {lean_name}{ps} : Model.M ({ret} × Rs.Stores) := do").unwrap();
+        } else if fi.mode == Mode::R {
             writeln!(s, "def {lean_name}{ps} : Model.M {ret} := do").unwrap();
         } else if fi.mode == Mode::P {
             let st_ty = tr.pstate.as_ref().and_then(|p| tr.vars.get(p)).cloned().unwrap_or_default();
@@ -3492,6 +3558,22 @@ fn main() {
                             if e.ident == name && cfg_on(&e.attrs) {
                                 let vs = e.variants.iter().filter(|v| cfg_on(&v.attrs)).map(|v| (v.ident.to_string(), !matches!(v.fields, Fields::Unit))).collect();
                                 reg.enums.insert(name.clone(), vs);
+                                t6r::register_variant_fields(e);
+                            }
+                        }
+                    }
+                }
+                // an enum that another generated module declares (`lenum` of the layer translation): known here, not emitted
+                "xenum" => {
+                    for ast in asts.values() {
+                        let mut all2 = vec![];
+                        find_items(&ast.items, &mut all2);
+                        for it in &all2 {
+                            if let Item::Enum(e) = it {
+                                if e.ident == name && cfg_on(&e.attrs) {
+                                    let vs = e.variants.iter().filter(|v| cfg_on(&v.attrs)).map(|v| (v.ident.to_string(), !matches!(v.fields, Fields::Unit))).collect();
+                                    reg.enums.insert(name.clone(), vs);
+                                }
                             }
                         }
                     }
@@ -3658,6 +3740,7 @@ fn main() {
                                 let mut discr = vec![];
                                 let mut next: u64 = 0;
                                 let mut fieldless = true;
+                                let mut opaque_payload = false;
                                 for v in e.variants.iter().filter(|v| cfg_on(&v.attrs)) {
                                     match &v.fields {
                                         Fields::Unit => {
@@ -3675,10 +3758,20 @@ fn main() {
                                             let binders: Vec<String> = ts.iter().enumerate().map(|(i, t)| format!("(a{i} : {t})")).collect();
                                             writeln!(s, "  | {} {}", v.ident, binders.join(" ")).unwrap();
                                         }
-                                        Fields::Named(_) => return Err("enum variant with named fields".into()),
+                                        Fields::Named(n) => {
+                                            fieldless = false;
+                                            opaque_payload = true;
+                                            let mut binders = vec![];
+                                            for f in &n.named {
+                                                binders.push(format!("({} : {})", f.ident.as_ref().unwrap(), tr.ty(&f.ty)?));
+                                            }
+                                            writeln!(s, "  | {} {}", v.ident, binders.join(" ")).unwrap();
+                                        }
                                     }
                                 }
-                                s += "  deriving DecidableEq, Repr\n";
+                                if !opaque_payload {
+                                    s += "  deriving DecidableEq, Repr\n";
+                                }
                                 if fieldless {
                                     writeln!(s, "\ndef Gen.{name}.discr : Gen.{name} → UInt64").unwrap();
                                     for (v, d) in &discr { writeln!(s, "  | .{v} => {d}").unwrap(); }
@@ -3781,6 +3874,12 @@ fn main() {
                         }
                         Err("not found".into())
                     }
+                    "xenum" => {
+                        if reg.enums.contains_key(name) {
+                            return Ok((format!("-- enum `{name}`: declared by another generated module (imported)\n"), String::from("-"), 0, 0));
+                        }
+                        Err("not found".into())
+                    }
                     "errfn" => {
                         for it in &all {
                             if let Item::Fn(f) = it {
@@ -3824,7 +3923,7 @@ fn main() {
         if fo.body.contains("Rs.S.") {
             writeln!(text, "import ZipVerif.Basic.RsS").unwrap();
         }
-        if fo.body.contains("Rs.Vec") || fo.body.contains("Rs.HashMap") || fo.body.contains("Rs.R.forRange") || fo.body.contains("Rs.Arc") {
+        if fo.body.contains("Rs.Vec") || fo.body.contains("Rs.HashMap") || fo.body.contains("Rs.R.forRange") || fo.body.contains("Rs.Arc") || fo.body.contains("Rs.Take") || fo.body.contains("Rs.Stores") || fo.body.contains("Rs.ReadExt") || fo.body.contains("Rs.InvalidPassword") {
             writeln!(text, "import ZipVerif.Basic.RsGlue").unwrap();
         }
         if fo.body.contains("Rs.Aes") || fo.body.contains("Rs.Hmac") {
